@@ -69,6 +69,8 @@ def gen_leaf(rng, kinds=None):
     d, c = rng.randrange(8), rng.randrange(8)
     if k == 'ineq':
         return ['ineq', d, c, rng.randrange(6), rng.randrange(-3, 12) + rng.pick([0, 0.5])]
+    if k == 'ineq2':
+        return ['ineq2', d, c, rng.randrange(6), rng.randrange(8)]        # attribute compared with attribute
     if k == 'range':
         lo = rng.randrange(-4, 10) + 0.5
         return ['range', d, c, lo, lo + rng.randrange(0, 8)]
@@ -76,7 +78,7 @@ def gen_leaf(rng, kinds=None):
         pairs = []
         for _ in range(rng.randrange(1, 4)):
             lo = rng.randrange(-4, 10) + 0.5
-            pairs.append([lo, lo + rng.randrange(0, 5)])
+            pairs.append([lo, lo + rng.pick([-3, -1, 0, 1, 2, 3, 4, 4])])      # a reversed pair is an empty range
         return ['mrange', d, c, pairs]
     if k == 'roi':
         shape = rng.pick(['rect', 'circle', 'poly', 'ellipse', 'xrange', 'yrange'])
@@ -254,6 +256,8 @@ class World(object):
         if k == 'ineq':
             cid = self.pick_cid(d, r[2], True)
             return S.InequalitySubsetState(cid, r[4], INEQ[r[3] % 6])
+        if k == 'ineq2':
+            return S.InequalitySubsetState(self.pick_cid(d, r[2], True), self.pick_cid(d, r[4], True), INEQ[r[3] % 6])
         if k == 'range':
             return S.RangeSubsetState(r[3], r[4], self.pick_cid(d, r[2], True))
         if k == 'mrange':
